@@ -70,11 +70,14 @@ gen("Live_waiter_atomic", "liveness, variant AtomicPeers: every blocked caller i
 # ---- coverage goals (MCDiscovery.tla, one worker): GoalCover "fails" when every goal has been reached
 GT = "VIEW state\nACTION_CONSTRAINT CoarseSchedule\nINVARIANTS GoalCover\n"
 GN = "behaviours that reach rarely taken decision branches (GoalCover in MCDiscovery.tla)"
-gen("Goals_limit", GN, "SpecB", P3, 2, W2, "{}", 1, 2, 0, 0, 0, 0, gc=False, maxlen=200, tail=GT, wanted=("full", "overshootround", "inset"))
+gen("Goals_limit", GN, "SpecB", P3, 2, W2, "{}", 1, 2, 0, 0, 0, 0, gc=False, maxlen=200, tail=GT,
+    wanted=("full", "overshootround", "inset", "x_hardLimit", "x_roundBelow"))
+gen("Goals_two", GN, "SpecB", P2, 2, W2, "{}", 1, 3, 1, 0, 0, 0, gc=False, maxlen=200, tail=GT, wanted=("x_dial",))
 gen("Goals_one", GN, "SpecB", P2, 1, W1, "{}", 1, 3, 1, 1, 1, 0, gc=False, maxlen=200, tail=GT,
-    wanted=("refused", "redial", "self", "dialfail", "noop", "absent", "refill", "connected"))
+    wanted=("refused", "redial", "self", "dialfail", "noop", "absent", "refill", "connected",
+            "x_inSetConnected", "x_inOrder", "x_view", "x_prot"))
 gen("Goals_callers", GN, "SpecB", P2, 1, W1, '{"c1", "c2"}', 1, 1, 0, 0, 0, 3, gc=False, maxlen=200, tail=GT,
-    wanted=("wake2", "cancelpark", "cancel"))
+    wanted=("wake2", "cancelpark", "cancel", "x_stranded"))
 
 # ---- simulation for the replay (MCDiscovery.tla, -simulate file=...)
 SIMINV = "ACTION_CONSTRAINT CoarseSchedule\nINVARIANTS TypeOK SizeBound ReportedExactlyOnce ViewBookkeeping PeersResult\n"
